@@ -107,12 +107,17 @@ def norm(v, depth=0):
     if depth > 6:
         return ('deep', type(v).__name__)
     if isinstance(v, (list, tuple)):
-        return tuple(norm(x, depth + 1) for x in v)
+        return tuple([x if type(x) is float and x == x else norm(x, depth + 1) for x in v])
     if isinstance(v, dict):
-        return ('dict',) + tuple(sorted(((str(k), norm(x, depth + 1)) for k, x in v.items()), key=repr))
+        return ('dict',) + tuple(sorted(((k if type(k) is str else repr(k), nf(x) if depth < 6 else norm(x, depth + 1))
+                                         for k, x in v.items()), key=_first))
     if hasattr(v, '__dict__'):
         return (type(v).__name__, norm({k: x for k, x in vars(v).items() if k != 'element'}, depth + 1))
     return ('repr', repr(v)[:80])
+
+
+def _first(kv):
+    return kv[0]
 
 
 def safe(fn):
@@ -141,84 +146,146 @@ def value_kind(v):
 # ---------------------------------------------------------------------------
 # digests: {entry: {field: normalised value}} per group
 # ---------------------------------------------------------------------------
-def _neutron_fields(atom, memo):
+CONFIG = {'xray_elements': None}     # None = every element; else a set of symbols (quick tier)
+XRAY_QUICK = ('n', 'H', 'C', 'O', 'Na', 'Cl', 'Si', 'Fe', 'Ni', 'Cu', 'Gd', 'Au', 'Pb', 'At', 'U', 'Cm', 'Og')
+SHARED = '<record>'     # key of a sub-dictionary of fields shared by several entries (expanded by diff_digests)
+
+
+def nf(v):
+    """norm() with a fast path for the scalar types that make up 95 % of all fields."""
+    t = type(v)
+    if t is float:
+        return v if v == v else 'nan'
+    if v is None or t is int or t is str or t is bool:
+        return v
+    return norm(v)
+
+
+def _entry(fast, slow):
+    """One digest entry: `fast()` builds the field dictionary in one go; when anything raises, every
+    field is evaluated on its own so that the exception is attributed to the field that raised it."""
     try:
-        n = atom.neutron
-    except Exception as exc:
-        return {'record': ('EXC', type(exc).__name__)}
+        return fast()
+    except Exception:
+        return {name: safe(fn) for name, fn in slow()}
+
+
+def _neutron_record(n, memo):
     key = id(n)
     if key not in memo:
         d = {}
         for f in NFIELDS:
-            d[f] = safe(lambda: getattr(n, f))
+            try:
+                d[f] = nf(getattr(n, f))
+            except Exception as exc:
+                d[f] = ('EXC', type(exc).__name__)
         try:
             d['extra_fields'] = tuple(sorted(k for k in vars(n) if k not in NFIELDS))
         except Exception:
             d['extra_fields'] = ('<no vars>',)
         d['sld@1.8'] = safe(lambda: n.sld(wavelength=1.8))
         memo[key] = (d, n)      # keep n alive so that ids stay unique
-    out = dict(memo[key][0])
-    out['own_record'] = 'neutron' in vars(atom)
-    return out
+    return memo[key][0]
+
+
+def _neutron_fields(atom, memo):
+    try:
+        n = atom.neutron
+    except Exception as exc:
+        return {'record': ('EXC', type(exc).__name__)}
+    return {SHARED: _neutron_record(n, memo), 'own_record': 'neutron' in vars(atom)}
+
+
+def _xray_extra(x):
+    return tuple(sorted(n for n in vars(x) if n not in ('element', '_table')))
 
 
 def digest_group(table, g):
     """Every value the table serves for group g, per atom and field."""
     d = {}
     memo = {}
+    xsel = CONFIG.get('xray_elements')
     for e in table:
         k = e.symbol
         if g == 'mass':
-            d[k] = {'mass': safe(lambda: e.mass), '_mass_unc': safe(lambda: e._mass_unc)}
+            d[k] = _entry(lambda: {'mass': nf(e.mass), '_mass_unc': nf(e._mass_unc)},
+                          lambda: (('mass', lambda: e.mass), ('_mass_unc', lambda: e._mass_unc)))
             for iso in e:
-                d['%s[%d]' % (k, iso.isotope)] = {
-                    'mass': safe(lambda: iso.mass), '_mass_unc': safe(lambda: iso._mass_unc),
-                    'abundance': safe(lambda: iso.abundance), '_abundance_unc': safe(lambda: iso._abundance_unc)}
+                d['%s[%d]' % (k, iso.isotope)] = _entry(
+                    lambda: {'mass': nf(iso.mass), '_mass_unc': nf(iso._mass_unc),
+                             'abundance': nf(iso.abundance), '_abundance_unc': nf(iso._abundance_unc)},
+                    lambda: (('mass', lambda: iso.mass), ('_mass_unc', lambda: iso._mass_unc),
+                             ('abundance', lambda: iso.abundance), ('_abundance_unc', lambda: iso._abundance_unc)))
             if e.ions:
                 q = e.ions[0]
                 d['%s{%d}' % (k, q)] = {'mass': safe(lambda: e.ion[q].mass)}
         elif g == 'density':
-            d[k] = {'density': safe(lambda: e.density), 'density_caveat': safe(lambda: e.density_caveat),
-                    'number_density': safe(lambda: e.number_density),
-                    'interatomic_distance': safe(lambda: e.interatomic_distance)}
+            d[k] = _entry(lambda: {'density': nf(e.density), 'density_caveat': nf(e.density_caveat),
+                                   'number_density': nf(e.number_density),
+                                   'interatomic_distance': nf(e.interatomic_distance)},
+                          lambda: (('density', lambda: e.density), ('density_caveat', lambda: e.density_caveat),
+                                   ('number_density', lambda: e.number_density),
+                                   ('interatomic_distance', lambda: e.interatomic_distance)))
             for iso in e:
-                d['%s[%d]' % (k, iso.isotope)] = {'density': safe(lambda: iso.density)}
+                d['%s[%d]' % (k, iso.isotope)] = _entry(lambda: {'density': nf(iso.density)},
+                                                        lambda: (('density', lambda: iso.density),))
         elif g == 'neutron':
             d[k] = _neutron_fields(e, memo)
             for iso in e:
                 f = _neutron_fields(iso, memo)
-                f['nuclear_spin'] = safe(lambda: vars(iso).get('nuclear_spin', '<absent>'))
+                f['nuclear_spin'] = vars(iso).get('nuclear_spin', '<absent>')
                 d['%s[%d]' % (k, iso.isotope)] = f
         elif g == 'xray':
-            def _extra(x):
-                return tuple(sorted(n for n in vars(x) if n not in ('element', '_table')))
+            if xsel is not None and k not in xsel:
+                continue
             d[k] = {'scattering_factors@8': safe(lambda: e.xray.scattering_factors(energy=8.0)),
                     'sld@8': safe(lambda: e.xray.sld(energy=8.0)),
                     'sftable': safe(lambda: e.xray.sftable),
-                    'extra_fields': safe(lambda: _extra(e.xray))}
+                    'extra_fields': safe(lambda: _xray_extra(e.xray))}
             if e.ions:
                 q = e.ions[0]
                 d['%s{%d}' % (k, q)] = {
                     'scattering_factors@8': safe(lambda: e.ion[q].xray.scattering_factors(energy=8.0)),
-                    'extra_fields': safe(lambda: _extra(e.ion[q].xray))}
+                    'extra_fields': safe(lambda: _xray_extra(e.ion[q].xray))}
         elif g == 'emission':
             d[k] = {'K_alpha': safe(lambda: e.K_alpha), 'K_beta1': safe(lambda: e.K_beta1),
                     'K_alpha_units': safe(lambda: e.K_alpha_units), 'K_beta1_units': safe(lambda: e.K_beta1_units)}
         elif g == 'covrad':
-            d[k] = {'covalent_radius': safe(lambda: e.covalent_radius),
-                    'covalent_radius_uncertainty': safe(lambda: e.covalent_radius_uncertainty),
-                    'covalent_radius_units': safe(lambda: e.covalent_radius_units)}
+            d[k] = _entry(lambda: {'covalent_radius': nf(e.covalent_radius),
+                                   'covalent_radius_uncertainty': nf(e.covalent_radius_uncertainty),
+                                   'covalent_radius_units': nf(e.covalent_radius_units)},
+                          lambda: (('covalent_radius', lambda: e.covalent_radius),
+                                   ('covalent_radius_uncertainty', lambda: e.covalent_radius_uncertainty),
+                                   ('covalent_radius_units', lambda: e.covalent_radius_units)))
         elif g == 'crystal':
             d[k] = {'crystal_structure': safe(lambda: e.crystal_structure)}
         elif g == 'magff':
             d[k] = {'magnetic_ff': safe(lambda: {q: vars(f) for q, f in e.magnetic_ff.items()})}
         elif g == 'activation':
+            # isotopes that carry their own rows are read in full; of the isotopes without rows the first
+            # of each element is read through getattr (a class- or element-level stand-in would show there),
+            # the others only record that they have no rows of their own
+            first = True
             for iso in e:
-                d['%s[%d]' % (k, iso.isotope)] = {
-                    'neutron_activation': safe(lambda: [vars(r) for r in iso.neutron_activation])}
+                name = '%s[%d]' % (k, iso.isotope)
+                if 'neutron_activation' in vars(iso) or first:
+                    d[name] = {'neutron_activation': safe(lambda: [vars(r) for r in iso.neutron_activation]),
+                               'own_rows': 'neutron_activation' in vars(iso)}
+                    if 'neutron_activation' not in vars(iso):
+                        first = False
+                else:
+                    d[name] = {'own_rows': False}
         else:
             raise ValueError(g)
     return d
+
+
+def _expand(fields):
+    if SHARED in fields:
+        out = dict(fields[SHARED])
+        out.update((k, v) for k, v in fields.items() if k != SHARED)
+        return out
+    return fields
 
 
 def diff_digests(got, want, only_common_entries=False):
@@ -233,6 +300,7 @@ def diff_digests(got, want, only_common_entries=False):
         a, b = got[entry], want[entry]
         if a == b:
             continue
+        a, b = _expand(a), _expand(b)
         for f in sorted(set(a) | set(b)):
             va, vb = a.get(f, '<absent>'), b.get(f, '<absent>')
             if va != vb:
@@ -601,6 +669,7 @@ def heap_walk(tables, dataless=()):
     SKIP = (type, types.ModuleType, types.FunctionType, types.MethodType, types.BuiltinFunctionType,
             property, core.PeriodicTable)
     IMMUT = (bool, int, float, complex, str, bytes, np.generic, type(None))
+    FAST = frozenset((bool, int, float, complex, str, bytes, type(None)))
     dataless = set(dataless)
     owner = {}
     for label, (tb, _) in tables.items():
@@ -622,7 +691,7 @@ def heap_walk(tables, dataless=()):
         names_iso = tuple(n for n in names_el if n in ISOTOPE_LEVEL)
 
         def walk(o, path, root_entry, depth):
-            if isinstance(o, IMMUT):
+            if type(o) in FAST or isinstance(o, IMMUT):
                 return
             oid = id(o)
             if isinstance(o, ATOMS):
@@ -655,11 +724,14 @@ def heap_walk(tables, dataless=()):
                 return
             if isinstance(o, dict):
                 for k, v in o.items():
-                    walk(k, path + '<key>', root_entry, depth + 1)
-                    walk(v, '%s[%r]' % (path, k), root_entry, depth + 1)
+                    if type(k) not in FAST:
+                        walk(k, path + '<key>', root_entry, depth + 1)
+                    if type(v) not in FAST:
+                        walk(v, '%s[%r]' % (path, k), root_entry, depth + 1)
             elif isinstance(o, (list, tuple, set, frozenset)):
                 for i, v in enumerate(o):
-                    walk(v, '%s[%d]' % (path, i), root_entry, depth + 1)
+                    if type(v) not in FAST:
+                        walk(v, '%s[%d]' % (path, i), root_entry, depth + 1)
             elif isinstance(o, np.ndarray):
                 if o.base is not None:
                     walk(o.base, path + '.base', root_entry, depth + 1)
@@ -668,11 +740,14 @@ def heap_walk(tables, dataless=()):
                         walk(v, '%s.flat[%d]' % (path, i), root_entry, depth + 1)
             elif hasattr(o, '__dict__'):
                 for k, v in list(vars(o).items()):
-                    walk(v, '%s.%s' % (path, k), root_entry, depth + 1)
+                    if type(v) not in FAST:
+                        walk(v, '%s.%s' % (path, k), root_entry, depth + 1)
 
         for entry, a in table_atoms(tb):
             stats['atoms_walked'] += 1
             for k, v in list(vars(a).items()):
+                if type(v) in FAST:
+                    continue
                 if k in ('element', 'ion', '_isotopes'):
                     # structure of the table itself: the IonSet / isotope map hold atoms of this table
                     if k == 'element':
@@ -686,7 +761,8 @@ def heap_walk(tables, dataless=()):
                     v = getattr(a, n)
                 except Exception:
                     continue
-                walk(v, '%s.%s' % (entry, n), entry, 0)
+                if type(v) not in FAST:
+                    walk(v, '%s.%s' % (entry, n), entry, 0)
 
     records = []
     for oid, by in reach.items():
@@ -704,7 +780,7 @@ def heap_walk(tables, dataless=()):
             'class_level': class_level.get(oid),
             'served_directly_to': {lab: len(r.get(lab, ())) for lab in sorted(by)},
             'served_sample': served[:6],
-            'served_only_to_dataless': bool(served) and all(e in dataless for e in served),
+            'served_only_to_dataless': (bool(served) and all(e in dataless for e in served)) if attr == ['neutron'] else None,
             'depth0': bool(r),
         }
         records.append(rec)
@@ -796,6 +872,8 @@ class Env(object):
         d = digest_group(tb, g)
         want = self.canon['digest'][g] if reference is None else reference
         self.counts['entries_compared'] += len(d)
+        if g == 'xray' and CONFIG.get('xray_elements') is not None:
+            only_common = True      # the quick tier digests a fixed subset of the elements
         diffs = diff_digests(d, want, only_common_entries=only_common)
         if diffs:
             dl = set(self.canon.get('dataless_neutron', ()))
@@ -1071,7 +1149,8 @@ class Env(object):
             groups = collections.OrderedDict()
             for r in recs:
                 sig = (r['object_type'], tuple(r['root_attrs']), bool(r['class_level']),
-                       'dataless-only' if r['served_only_to_dataless'] else 'serves-data-atoms', tuple(r['tables']))
+                       {True: 'served only to atoms without a neutron row', False: 'served to atoms that have data',
+                        None: 'per-atom data'}[r['served_only_to_dataless']], tuple(r['tables']))
                 groups.setdefault(sig, []).append(r)
             for sig, rs in groups.items():
                 r = rs[0]
